@@ -54,6 +54,10 @@ structure MarketCfg where
   openCb : Bool           -- `market.open` is set
   sparse : Bool := false  -- the market's own `_resample` drops the bins without a row (`DeribitOptionMarket._resample`:
                           -- `.resample(freq).first().dropna(how="all")`): a hole that covers a whole bar stays a hole, the market is closed there
+  strict : Bool := false  -- the market's `set_market_status` looks the bar's row up unguarded (`self.data.loc[timestamp]`: UniLpMarket, AaveV3Market,
+                          -- SqueethMarket, GmxMarket, GmxV2Market — `Gen.coreStrictStatus…`): on a bar its frame has no row for it raises KeyError
+                          -- instead of being closed (only DeribitOptionMarket guards the lookup).  Read by `Demeter/Actuator/Strict.lean` only:
+                          -- `run` / `runG` are the loop for configurations in which no strict market is ever closed on a bar.
 deriving Repr, Inhabited
 
 structure Cfg where
